@@ -15,7 +15,7 @@ def _nontrivial(case, impl, kv):
     return True
 
 
-_DIST = ("class", "shape", "built", "st", "kind", "pass", "npass", "out", "changed", "reviewed", "merged", "nblocks")
+_DIST = ("class", "shape", "built", "st", "kind", "pass", "npass", "out", "changed", "reviewed", "merged", "nblocks", "rerun")
 
 SPEC = dict(
     id="C03", level="translation_validation",
@@ -42,7 +42,8 @@ SPEC = dict(
          "or seed-chosen std in-language test package (baseline = inline + OptLevel::Opt0 FuelVM tail); per package every "
          "registered transform pass alone (before / after the baseline passes), the real Opt0 and Opt1 pipelines and "
          "seeded random pass lists; one case = (package, test, pass list): revert code / return and every log receipt "
-         "compared with the baseline, and the variant must build whenever the baseline builds. non-trivial = both built. "
+         "compared with the baseline, and the variant must build whenever the baseline builds; a differing pair is built and run "
+         "a second time and the second results are reported (key rerun counts them). non-trivial = both built. "
          "(dedup) real fn-dedup-release on hand-written function pairs that differ in exactly one instruction field. "
          "(miniir) random functions inside the MiniIR subset: real parser, real pass list of 1-3 passes out of "
          "simplify-cfg, dce, const-folding, ccp, cse, mem2reg, sroa, memcpyopt, fn-dedup-release; before/after exported "
